@@ -4,7 +4,10 @@ import (
 	"bytes"
 	"encoding/binary"
 	"fmt"
+	"math/rand"
 	"sort"
+	"sync"
+	"sync/atomic"
 	"time"
 
 	"github.com/simpleiot/simpleiot/modbus"
@@ -435,7 +438,7 @@ func genMbRequest(r *vlib.R, spec mbMapSpec) (byte, []byte) {
 
 func runC18(tier string, _ []string) int {
 	c := vlib.NewCtx("C18", tier, "exploration")
-	c.SetRule("requests: function codes 1,2,3,4,5,6,15,16 from structured generators (address and quantity at 0,1,limit-1,limit,limit+1,2040/2041,0x7FFF,0x8000,0xFFFF, straddling the end of each mapped range and 65535->0; byte counts off by one; validator-friendly and hostile values; truncations and extra bytes) plus raw random (function code 0..255, random data), replayed as a stateful sequence against 7 register maps (empty, sparse, dense, dense with validators, top of address space, coil top, coils only). Oracle: reference server written from the Modbus spec v1.1b3; compared: response PDU, error return, register file (addressed registers every request, the whole file every 64 requests). distinct = (map, model outcome class, actual outcome)")
+	c.SetRule("requests: function codes 1,2,3,4,5,6,15,16 from structured generators (address and quantity at 0,1,limit-1,limit,limit+1,2040/2041,0x7FFF,0x8000,0xFFFF, straddling the end of each mapped range and 65535->0; byte counts off by one; validator-friendly and hostile values; truncations and extra bytes) plus raw random (function code 0..255, random data), replayed as a stateful sequence against 7 register maps (empty, sparse, dense, dense with validators, top of address space, coil top, coils only). Oracle: reference server written from the Modbus spec v1.1b3; compared: response PDU, error return, register file (addressed registers every request, the whole file every 64 requests). distinct = (map, model outcome class, actual outcome) Finally 3-8 goroutines call ProcessRequest on one register file at once (as the handlers of a TCP server do), each writing coils only it owns inside registers shared with the others, reading each back and comparing all at rest.")
 	c.Assume("tolerances: two simultaneous exception causes accept either code; truncated PDUs may get an exception or an error return; extra trailing bytes or a disagreeing byte-count byte with consistent length may be processed or refused with exception 3; multi-writes refused with an exception may leave addressed registers in any state")
 	nReq := c.N(600000, 20000000)
 	perSeq := 400
@@ -570,6 +573,72 @@ func runC18(tier string, _ []string) int {
 			}
 		}
 	})
+	// ---- the same server entry point called from several connections at once (a TCP server runs one
+	// handler per connection on one register file): a write changes exactly the addressed coil, also
+	// while other callers write its neighbours in the same 16-bit register
+	nConc := c.N(20, 200)
+	for ci := 0; ci < nConc && !vlib.Aborted(); ci++ {
+		r := vlib.NewR(c.Seed, "c18conc", ci)
+		regs := &modbus.Regs{}
+		regs.AddReg(0, 8)
+		nW := 3 + r.Intn(6)
+		rounds := c.N(300, 1000)
+		var wg sync.WaitGroup
+		var bad atomic.Value
+		final := make([]map[int]bool, nW)
+		for w := 0; w < nW; w++ {
+			wg.Add(1)
+			seed := r.Int63()
+			go func(w int) {
+				defer wg.Done()
+				defer func() {
+					if p := recover(); p != nil {
+						bad.Store(fmt.Sprintf("ProcessRequest panicked under concurrent callers: %v", p))
+					}
+				}()
+				cr := rand.New(rand.NewSource(seed))
+				final[w] = map[int]bool{}
+				for q := 0; q < rounds && bad.Load() == nil; q++ {
+					coil := w + nW*cr.Intn(128/nW)
+					v := cr.Intn(2) == 1
+					val := uint16(0)
+					if v {
+						val = 0xff00
+					}
+					req := modbus.PDU{FunctionCode: modbus.FuncCodeWriteSingleCoil, Data: []byte{byte(coil >> 8), byte(coil), byte(val >> 8), byte(val)}}
+					_, resp, err := req.ProcessRequest(regs)
+					if err != nil || resp.FunctionCode != modbus.FuncCodeWriteSingleCoil {
+						bad.Store(fmt.Sprintf("caller %d: write single coil %d refused: %v fc=%d", w, coil, err, resp.FunctionCode))
+						return
+					}
+					final[w][coil] = v
+					rd := modbus.PDU{FunctionCode: modbus.FuncCodeReadCoils, Data: []byte{byte(coil >> 8), byte(coil), 0, 1}}
+					_, resp, err = rd.ProcessRequest(regs)
+					if err != nil || len(resp.Data) != 2 || (resp.Data[1]&1 == 1) != v {
+						bad.Store(fmt.Sprintf("caller %d wrote coil %d = %v (normal response) and the next read of it returned % x %v while %d other callers wrote other coils", w, coil, v, resp.Data, err, nW-1))
+						return
+					}
+				}
+			}(w)
+		}
+		wg.Wait()
+		c.Eval(nW * rounds)
+		if bad.Load() == nil {
+			for w := range final {
+				for coil, v := range final[w] {
+					if got, err := regs.ReadCoil(coil); err != nil || got != v {
+						bad.Store(fmt.Sprintf("at rest: coil %d holds %v, the last acknowledged write was %v", coil, got, v))
+					}
+				}
+			}
+		}
+		if b := bad.Load(); b != nil {
+			c.Violate("modbus-server:write-changed-other-than-addressed:concurrent-callers", b.(string), map[string]any{"case": ci, "seed": c.Seed, "callers": nW})
+			break
+		}
+		c.Count("concurrent_caller_runs", 1)
+		c.Distinct(fmt.Sprintf("concurrent callers %d", nW))
+	}
 	c.Require("outcome:norm", 500)
 	c.Require("outcome:exce", 500)
 	return c.Finish()
